@@ -9,6 +9,7 @@ import os
 import sys
 
 from pyasn1 import error
+from pyasn1.compat.octets import null
 from pyasn1.type import univ
 
 _PY2 = sys.version_info < (3,)
@@ -240,7 +241,12 @@ def readFromStream(substrate, size=-1, context=None):
             raise error.EndOfStreamError(context=context)
 
         elif len(received) < size:
-            substrate.seek(-len(received), os.SEEK_CUR)
+            # tell a stream that has ended from one that has more to come
+            more = substrate.read(size - len(received))
+            if more is not None and not more:
+                raise error.EndOfStreamError(context=context)
+
+            substrate.seek(-len(received) - len(more or null), os.SEEK_CUR)
 
             # behave like a non-blocking stream
             yield error.SubstrateUnderrunError(context=context)
